@@ -187,6 +187,13 @@ let explore fx (sc : scen) (maxstates : int) =
         if active s then begin incr nstuck; if ext = [] then report "stuck" "no internal step enabled although threads / the reaper still have work (and no external event left)" k s end
         else incr nfinal
       end;
+      (* the termination measure of Core/CloseTerm.v must decrease along every internal step *)
+      let m3 x = (int_of_nat (phi x), int_of_nat (pS x), int_of_nat (l x)) in
+      let (a1, a2, a3) = m3 s in
+      List.iter (fun (lb, s') ->
+        let (b1, b2, b3) = m3 s' in
+        if s'.bad = [] && not (b1 < a1 || (b1 = a1 && (b2 < a2 || (b2 = a2 && b3 < a3)))) then
+          report ("measure") (Printf.sprintf "measure does not decrease on %s: (%d,%d,%d) -> (%d,%d,%d)" (s_label lb) a1 a2 a3 b1 b2 b3) k s) en;
       List.iter (fun (l, s') -> push k l (s', ext)) en;
       List.iter (fun l -> match step fx s l with
         | Some s' -> push k l (s', List.filter (fun x -> x != l) ext)
